@@ -61,7 +61,29 @@ FailsC02(e) ==
        ELSE IF Len(pf.blocks) # Len(e.blocks) THEN <<"harness and specification disagree on the number of blocks">>
        ELSE BlockFails(e, pf, 1, 0)
 
-Fails(e) == CASE e.op = "roundtrip" /\ e.mode = "C01" -> FailsC01(e)
+\* ---------------------------- C03 / C04 --------------------------------
+\* TLC-generated (schema, datum, legal encoding) vectors read by the real reader into a target type
+FailsVec(e) ==
+  IF e.panic # "" THEN <<"reader panicked: " \o e.panic>>
+  ELSE IF \A i \in 1..Len(e.datums) : Fits(e.schema, e.datums[i], e.target) THEN
+       IF e.err # "" THEN <<"reader rejected a legal encoding: " \o e.err>>
+       ELSE Chk(Len(e.delivered) = Len(e.datums), "number of delivered records differs from the number encoded")
+            \o Chk(Len(e.delivered) # Len(e.datums) \/ \A i \in 1..Len(e.datums) : Rep(e.schema, e.datums[i], e.delivered[i], FALSE, "r"),
+                   "a delivered value is not the datum that was encoded (projection, coercion or block handling)")
+            \o Chk(Len(e.recheck) # Len(e.datums) \/ \A i \in 1..Len(e.datums) : Rep(e.schema, e.datums[i], e.recheck[i], FALSE, "r"),
+                   "a retained value changed after delivery")
+  ELSE Chk(e.err # "", "a value that does not fit the Go field was accepted (silent truncation)")
+
+\* Read and Skip of one record followed by three guard bytes: both consume exactly the encoding
+FailsLefts(e) ==
+  IF "lefts" \notin DOMAIN e THEN <<>>
+  ELSE LET bad == {i \in 1..Len(e.lefts) :
+                     \/ e.lefts[i][3] # "ok" \/ e.lefts[i][4] # 3
+                     \/ (Fits(e.schema, e.datums[i], e.target) /\ (e.lefts[i][1] # "ok" \/ e.lefts[i][2] # 3))} IN
+       Chk(bad = {}, "Read or Skip did not consume exactly the bytes of the value")
+
+Fails(e) == CASE e.op = "vec_read" -> FailsVec(e) \o FailsLefts(e)
+              [] e.op = "roundtrip" /\ e.mode = "C01" -> FailsC01(e)
               [] e.op = "roundtrip" /\ e.mode = "C02" -> FailsC02(e)
               [] OTHER -> <<"unknown event">>
 
